@@ -26,7 +26,7 @@ var (
 )
 
 func sysInvalid(rng *proto.Rng) []sysObj {
-	switch rng.Intn(13) {
+	switch rng.Intn(14) {
 	case 0: // missing name
 		return []sysObj{{ID: jid{"ns1", "", "", "ConfigMap"}}}
 	case 1: // namespaced kind without namespace
@@ -56,6 +56,8 @@ func sysInvalid(rng *proto.Rng) []sysObj {
 		return []sysObj{{ID: soC.ID, Deps: []jid{soB.ID, soB.ID}}, soB, soA}
 	case 11: // s: malformed reference, its dependency k present
 		return []sysObj{{ID: soS.ID, DepsRaw: "x//y"}, soK}
+	case 12: // m: mutation annotation with an external source listed before the in-set source a
+		return []sysObj{{ID: soM.ID, MutFrom: soM.MutFrom, MutExt: true}}
 	default: // missing kind
 		return []sysObj{{ID: jid{"ns1", "nokind", "", ""}}}
 	}
@@ -119,7 +121,7 @@ func genSysHistory(rng *proto.Rng) sysIn {
 				for _, o := range sysInvalid(rng) {
 					// the invalid form replaces a valid form of the same object picked above
 					for i := range run.Objs {
-						if run.Objs[i].ID == o.ID && (o.DepsRaw != "" || len(o.Deps) != len(run.Objs[i].Deps)) {
+						if run.Objs[i].ID == o.ID && (o.DepsRaw != "" || len(o.Deps) != len(run.Objs[i].Deps) || o.MutExt) {
 							run.Objs[i] = o
 						}
 					}
@@ -128,7 +130,7 @@ func genSysHistory(rng *proto.Rng) sysIn {
 			}
 		}
 		run.Opts = sysOpts{NoPrune: rng.Chance(1, 7), Policy: rng.Intn(3), SkipInvalid: rng.Chance(1, 2), SSA: rng.Chance(1, 5),
-			EmitStatus: rng.Chance(1, 4), Foreground: rng.Chance(1, 5)}
+			EmitStatus: rng.Chance(1, 4), Foreground: rng.Chance(1, 5), StatusAll: rng.Chance(1, 4)}
 		if rng.Chance(1, 7) {
 			run.Opts.Dry = 1 + rng.Intn(2)
 		}
@@ -136,9 +138,9 @@ func genSysHistory(rng *proto.Rng) sysIn {
 		for _, o := range sysCatalogue {
 			k := idKey(o.ID)
 			if rng.Chance(1, 5) {
-				b := proto.Pick(rng, []string{"never", "stale", "failed", "failed-current", "replaced"})
+				b := proto.Pick(rng, []string{"never", "stale", "failed", "failed-current", "replaced", "failed-stale"})
 				run.Ctrl[k] = b
-				if b == "never" || b == "stale" || b == "replaced" {
+				if b == "never" || b == "stale" || b == "replaced" || b == "failed-stale" {
 					needTimeout = true
 				}
 			}
@@ -216,6 +218,11 @@ func sysHandWritten() []sysIn {
 			{Kind: "destroy"}}},
 		{Pre: pre, Runs: []sysRun{{Kind: "apply", Objs: []sysObj{soA, soB, soC}},
 			{Kind: "apply", Objs: []sysObj{soA, soB, {ID: soC.ID, Deps: []jid{soB.ID, soB.ID}}}, Opts: sysOpts{SkipInvalid: true}}}},
+		// m depends on a through its mutation annotation; later m's annotation gains an external source listed first (m becomes
+		// invalid) while a is dropped from the apply set: a must not be pruned while m (still live, still depending on it) is skipped
+		{Pre: pre, Runs: []sysRun{{Kind: "apply", Objs: []sysObj{soA, soM}},
+			{Kind: "apply", Objs: []sysObj{{ID: soM.ID, MutFrom: soM.MutFrom, MutExt: true}}, Opts: sysOpts{SkipInvalid: true}},
+			{Kind: "destroy"}}},
 	}
 }
 
